@@ -7,6 +7,7 @@ import (
 	"fmt"
 	"runtime"
 	"strings"
+	"time"
 
 	wire "github.com/jeroenrinzema/psql-wire"
 	"github.com/jeroenrinzema/psql-wire/pkg/buffer"
@@ -474,6 +475,38 @@ func (ch c02) Run(c *core.Ctx) {
 			}
 		}
 		pg.AnySQLState = false
+	}
+	// (j) a statement that produces its rows slowly (a pause of a few milliseconds between rows of
+	// different sizes) for a client that reads slowly (every transport Write takes a moment), after a
+	// larger result on the same connection: whoever writes what when, the stream stays message after message
+	if c.Batch == 4%ch.Batches(c.Tier) && c.Begin(3900000) {
+		pause := hs.Op{K: "call", Fn: func() { time.Sleep(3 * time.Millisecond) }}
+		big := &hs.Stmt{ID: "big", Cols: textCols(1)}
+		for i := 0; i < 40; i++ {
+			big.Ops = append(big.Ops, hs.Op{K: "row", Vals: []any{strings.Repeat("a", 200)}})
+		}
+		big.Ops = append(big.Ops, hs.Op{K: "complete", Tag: "SELECT 40"})
+		slow := &hs.Stmt{ID: "slow", Cols: textCols(1)}
+		for i := 0; i < 24; i++ {
+			slow.Ops = append(slow.Ops, hs.Op{K: "row", Vals: []any{strings.Repeat(string(rune('b'+i%20)), 10+37*(i%7))}}, pause)
+		}
+		slow.Ops = append(slow.Ops, hs.Op{K: "complete", Tag: "SELECT 24"})
+		for round := 0; round < 3; round++ {
+			conn := env.Dial(&hs.Sess{Progs: map[string]*hs.Prog{"big": {Stmts: []*hs.Stmt{big}}, "slow": {Stmts: []*hs.Stmt{slow}}}})
+			conn.NoLog = true
+			conn.SlowWrite = time.Duration(1+round*2) * time.Millisecond
+			in := append(pg.Startup([][2]string{{"user", "u"}}), pg.Query("big")...)
+			in = append(append(in, pg.Query("slow")...), pg.Query("slow")...)
+			conn.Send(append(in, pg.Terminate()...))
+			conn.CloseWrite()
+			if !conn.WaitClosed() {
+				c.Inconclusive("connection did not close (C02 slow-rows workload)")
+				return
+			}
+			c.Count("slow_row_streams_to_slow_readers", 1)
+			c.Eval(fmt.Sprintf("slow rows %d", round), true)
+			strict(conn, "rows produced slowly for a client that reads slowly", map[string]any{"workload": "slow rows, slow reader", "round": round})
+		}
 	}
 	// (f) writes interrupted half-way: the k-th transport Write of a canonical session takes half of its
 	// bytes and returns a temporary (timeout) error, for every k. Whether the server gives the connection
